@@ -38,7 +38,7 @@ def gen_plan(run_seed: int, tier: str) -> dict:
     macs = npl.unique_macs(r, n + 1)
     ports = npl.rand_ports(r)
     near = npl.neighbours_of_ports(ports)
-    mib = npl.rand_mib(r)
+    mib = npl.rand_mib(r, dpl=(8, 16))
     if "itsGnLifetimeLocTE" in mib and mib["itsGnLifetimeLocTE"] < 5:
         mib["itsGnLifetimeLocTE"] = 5
     stations = []
@@ -164,6 +164,10 @@ class C01Sim(NetSim):
         self.ego_hist.setdefault(station.idx, []).append((self.kernel.events_run, pv_tuple(station.ego())))
 
 
+def make_sim(plan: dict):
+    return C01Sim(plan)
+
+
 def execute(plan: dict) -> dict:
     sim = C01Sim(plan)
     sim.run()
@@ -275,7 +279,11 @@ def judge(sim: C01Sim) -> None:
                         f"op {o['idx']}: payload for port {o['op']['dport']} reached handler of port {x['port']} on station {x['st']}")
             continue
         rank = {"expected": 0, "noverdict": 1, "forbidden": 2, "self": 3}
-        ported.sort(key=lambda o: (len(o["got"].get(x["st"], [])) > 0, rank[o["cls"].get(x["st"], "forbidden")], o["idx"]))
+        def meta_ok(o):
+            if o["op"]["btp"] == "a":
+                return x["ind"].source_port == o["op"].get("sport", 0)
+            return x["ind"].destination_port_info == o["op"].get("dpinfo", 0)
+        ported.sort(key=lambda o: (not meta_ok(o), len(o["got"].get(x["st"], [])) > 0, rank[o["cls"].get(x["st"], "forbidden")], o["idx"]))
         o = ported[0]
         o["got"].setdefault(x["st"], []).append(x)
         x["req"] = o["idx"]
@@ -323,20 +331,48 @@ def judge(sim: C01Sim) -> None:
                     sim.violate(ID, "delivered-twice", key_base, f"op {o['idx']}: {typ} payload delivered {len(got)} times on station {rcv.idx}")
             _check_metadata(sim, o, got[0], key_base)
         o["outcome"] = "".join(outcome)
-    # ---- per (sender, receiver, class) order
+    # ---- order.  Multi-hop packets may overtake each other through relays, so request order is judged
+    #      (a) on the wire at the sender: first emission of each request, per destination class;
+    #      (b) at the receiver for SHB only (single path, FIFO link).
     if not lossy:
-        by_pair: dict[tuple, list] = {}
         byidx = {o["idx"]: o for o in live}
-        for x in sorted((x for x in inds if "req" in x), key=lambda z: z["ev"]):
-            o = byidx[x["req"]]
-            if o["got"].get(x["st"], [None])[0] is not x:
+        first_tx: dict[int, int] = {}
+        for t in hist.tx:
+            if t["injected"]:
                 continue
-            cls = "uc" if o["op"]["type"] == "guc" else "bc"
-            by_pair.setdefault((o["op"]["st"], x["st"], cls), []).append(x["req"])
-        for (s, rcv, cls), seq in by_pair.items():
+            st = sim.stations[t["st"]]
+            try:
+                p = rc.parse_packet(t["frame"])
+            except rc.Malformed:
+                continue
+            if "secured" in p or p["so"]["addr"]["mid"] != st.mac or rc.ptype(p) in ("BEACON", "LSREQ", "LSREP"):
+                continue
+            body = p["payload"]
+            for o in live:
+                hdr = rc.enc_btp(o["op"]["dport"], o["op"].get("sport", 0) if o["op"]["btp"] == "a" else o["op"].get("dpinfo", 0))
+                if o["op"]["st"] == t["st"] and o["idx"] not in first_tx and hdr + o["payload"] == body and o["ev"] <= t.get("ev", 1 << 60) \
+                        and rc.ptype(p).lower() == o["op"]["type"]:
+                    first_tx[o["idx"]] = t["i"]
+                    break
+        groups: dict[tuple, list] = {}
+        for idx, txi in sorted(first_tx.items(), key=lambda kv: kv[1]):
+            o = byidx[idx]
+            cls = ("uc", str(o["op"].get("dest"))) if o["op"]["type"] == "guc" else ("bc", "")
+            groups.setdefault((o["op"]["st"],) + cls, []).append(idx)
+        for (s_, cls, dest), seq in groups.items():
             if seq != sorted(seq):
                 sim.violate(ID, "out-of-order", "guc" if cls == "uc" else "broadcast",
-                            f"station {rcv} received payloads of station {s} in order {seq} (request order {sorted(seq)})")
+                            f"station {s_} emitted its requests {sorted(seq)} in order {seq}" + (f" (destination {dest})" if cls == "uc" else ""))
+        by_pair: dict[tuple, list] = {}
+        for x in sorted((x for x in inds if "req" in x), key=lambda z: z["ev"]):
+            o = byidx[x["req"]]
+            if o["op"]["type"] != "shb" or o["got"].get(x["st"], [None])[0] is not x:
+                continue
+            by_pair.setdefault((o["op"]["st"], x["st"]), []).append(x["req"])
+        for (s_, rcv), seq in by_pair.items():
+            if seq != sorted(seq):
+                sim.violate(ID, "out-of-order", "shb-at-receiver",
+                            f"station {rcv} received SHB payloads of station {s_} in order {seq} (request order {sorted(seq)})")
 
 
 def _rx_dpl(sim, x):
